@@ -88,13 +88,21 @@ func verifHarness_C20_write(k int, n int, cut int) {
 	}
 	r := &Reader{ByteReader: frame.VerifChunkReader(rec.Buf(), chunks)}
 	verifAssert(r.Initialize() == nil, "C20/W/reader-init")
+	// the entries are collected first and compared afterwards, as a caller loading a whole log does: what Read
+	// returned for entry i is still entry i after later entries were read
+	ents := make([]*Entry, k)
 	for i := 0; i < k; i++ {
 		e, err := r.Read()
 		verifAssert(err == nil && e != nil, "C20/W/read-ok")
-		verifAssert(verifEqBytes(frame.VerifWireOf(e.Frame), wires[i]), "C20/W/frame-equal")
+		ents[i] = e
 	}
 	e, err := r.Read()
 	verifAssert(err != nil && e == nil, "C20/W/then-error")
+	for i := 0; i < k; i++ {
+		if ents[i] != nil {
+			verifAssert(verifEqBytes(frame.VerifWireOf(ents[i].Frame), wires[i]), "C20/W/frame-equal")
+		}
+	}
 	verifReach("C20/W")
 }
 
@@ -162,10 +170,18 @@ func verifHarness_C20_cut(k int, n int, cut int) {
 			complete++
 		}
 	}
+	got := make([]*Entry, complete)
 	for i := 0; i < complete; i++ {
 		e, err := r.Read()
 		verifAssert(err == nil && e != nil, "C20/C/complete-entry-returned")
-		verifAssert(verifEqBytes(frame.VerifWireOf(e.Frame), wires[i]), "C20/C/complete-entry-frame")
+		got[i] = e
+	}
+	// compared after all of them were read: an entry handed out stays what it was
+	for i := 0; i < complete; i++ {
+		if got[i] != nil {
+			verifAssert(verifEqBytes(frame.VerifWireOf(got[i].Frame), wires[i]), "C20/C/complete-entry-frame")
+			verifAssert(uint64(got[i].Time.UnixMicro()) == stamps[i%3], "C20/C/complete-entry-time")
+		}
 	}
 	for j := 0; j < 4; j++ {
 		e, err := r.Read()
